@@ -55,7 +55,29 @@ class ParseSuite:
     imports = IMPORTS
     shard = 400
 
+    def __init__(self, only=None):
+        self.only = only
+        if only:
+            self.name = "parsers_" + "_".join(only)
+
     def cases(self, rng, tier):
+        for c in self.all_cases(rng, tier):
+            if self.only is None or c["fn"] in self.only:
+                yield c
+
+    def oracle_C16(self, case, out):
+        """every reference form: the request Wheatley sends to CompLib names the composition and carries the access key
+        and the substituted method as two proper query parameters"""
+        if case["fn"] != "request_url" or "url" not in out:
+            return None
+        parts = ([f"accessKey={case['key']}"] if case["key"] else []) + \
+                ([f"substitutedmethodid={case['subst']}"] if case["subst"] else [])
+        want = f"https://api.complib.org/composition/{case['id']}/rows" + ("?" + "&".join(parts) if parts else "")
+        if out["url"] != want:
+            return f"composition {case['id']}, access key {case['key']!r}, substituted method {case['subst']!r}: requested {out['url']!r}, should be {want!r}"
+        return None
+
+    def all_cases(self, rng, tier):
         deep = tier == "thorough"
         # ---- peal speed
         alpha = "019hm- +_ ٣²"
